@@ -156,7 +156,7 @@ def r1(ctx):
 
 
 # ------------------------------------------------------------------------------------------ R2
-@R.rule("C45-R2", floor=5, template="T-GUARD/T-FLOW",
+@R.rule("C45-R2", floor=6, template="T-GUARD/T-FLOW",
         desc="_merge: the identity map is consulted first under the given state's key; new_instance() and Session.get() "
              "are control-dependent on `merged is None`; the instance found/created is what is returned")
 def r2(ctx):
